@@ -444,6 +444,23 @@ func (e *fnEnc) binop(op token.Token, X, Y ssa.Value, resT types.Type, pos token
 			// concatenation is a function of its operands (so contracts can name the same string)
 			n := fmt.Sprintf("(strcat %s %s)", x, y)
 			e.vc.def(fmt.Sprintf("(and (= (s-off %s) 0) (= (s-len %s) (+ (s-len %s) (s-len %s))))", n, n, x, y))
+			// content, as ground facts (no quantifier): the bytes of a short literal operand stand where concatenation
+			// puts them, and the last bytes of the left operand are carried over in front of a literal right operand
+			{
+				if l, ok := litOf(Y); ok && len(l) >= 1 && len(l) <= 8 {
+					for i := 0; i < len(l); i++ {
+						e.vc.def(fmt.Sprintf("(= (select (s-base %s) (+ (s-len %s) %d)) %d)", n, x, i, l[i]))
+					}
+					for j := 1; j <= 6; j++ {
+						e.vc.def(fmt.Sprintf("(=> (>= (s-len %s) %d) (= (select (s-base %s) (- (s-len %s) %d)) (select (s-base %s) (+ (s-off %s) (- (s-len %s) %d)))))", x, j, n, x, j, x, x, x, j))
+					}
+				}
+				if l, ok := litOf(X); ok && len(l) >= 1 && len(l) <= 8 {
+					for i := 0; i < len(l); i++ {
+						e.vc.def(fmt.Sprintf("(= (select (s-base %s) %d) %d)", n, i, l[i]))
+					}
+				}
+			}
 			return n
 		case token.LSS, token.LEQ, token.GTR, token.GEQ:
 			// strord is an order embedding of the (finitely many) strings of a query into Int
